@@ -115,6 +115,10 @@ var portfolio = []solverDef{
 }
 
 func dischargeOne(o *Obligation, opt SolveOpts, wid int) {
+	if o.Goal == "true" && o.Expect == "unsat" {
+		o.Status, o.Solver, o.Result = "discharged", "syntactic", "unsat"
+		return
+	}
 	base := filepath.Join(opt.TmpDir, fmt.Sprintf("w%d", wid))
 	if opt.KeepSMT {
 		base = filepath.Join(opt.TmpDir, strings.NewReplacer("/", "_", "#", "-", "*", "").Replace(o.ID()))
